@@ -1,5 +1,366 @@
 package main
 
-import . "verifharness/hlib"
+// Stream "nat": container-building natives called through the public API on arguments made of known
+// backing arrays and maps (with sharing between arguments, hidden capacity and overlapping slices).
+// For every call the line records the argument heap, the result with its SHARING SIGNATURE (which
+// result container is (part of) which argument container, found by pointer) and the argument heap
+// after the call.  The extracted heap model (coq/c05/Run.v) judges each line.
 
-func runNat(c *Ctx) {}
+import (
+	"fmt"
+	"reflect"
+	"sort"
+	"strings"
+	"unsafe"
+
+	"verifharness/c56"
+	. "verifharness/hlib"
+)
+
+type natHeap struct {
+	cells []any // []any (len == cap == size) or map[string]any
+	desc  []string
+}
+
+const wordsPerAny = unsafe.Sizeof(any(nil))
+
+// ref of a Go container relative to the heap: "(r k off len)" / "(m k)" or "" when fresh
+func (h *natHeap) ref(v any) string {
+	switch v := v.(type) {
+	case []any:
+		if len(v) == 0 {
+			return "(na)"
+		}
+		p := reflect.ValueOf(v).Pointer()
+		for k, c := range h.cells {
+			if b, ok := c.([]any); ok && len(b) > 0 {
+				base := reflect.ValueOf(b).Pointer()
+				if p >= base && p < base+uintptr(len(b))*wordsPerAny {
+					return fmt.Sprintf("(r %d %d %d)", k, (p-base)/wordsPerAny, len(v))
+				}
+			}
+		}
+	case map[string]any:
+		p := reflect.ValueOf(v).Pointer()
+		for k, c := range h.cells {
+			if m, ok := c.(map[string]any); ok && reflect.ValueOf(m).Pointer() == p {
+				return fmt.Sprintf("(m %d)", k)
+			}
+		}
+	}
+	return ""
+}
+
+func (h *natHeap) val(v any, depth int) string {
+	if depth > 40 {
+		return "toodeep"
+	}
+	switch v := v.(type) {
+	case nil:
+		return "null"
+	case bool:
+		if v {
+			return "true"
+		}
+		return "false"
+	case int:
+		return fmt.Sprintf("(i %d)", v)
+	case string:
+		return "(s " + Hexs([]byte(v)) + ")"
+	case []any:
+		if r := h.ref(v); r != "" {
+			return r
+		}
+		var b strings.Builder
+		b.WriteString("(na")
+		for _, x := range v {
+			b.WriteByte(' ')
+			b.WriteString(h.val(x, depth+1))
+		}
+		b.WriteByte(')')
+		return b.String()
+	case map[string]any:
+		if r := h.ref(v); r != "" {
+			return r
+		}
+		ks := make([]string, 0, len(v))
+		for k := range v {
+			ks = append(ks, k)
+		}
+		sort.Strings(ks)
+		var b strings.Builder
+		b.WriteString("(no")
+		for _, k := range ks {
+			b.WriteString(" (" + Hexs([]byte(k)) + " " + h.val(v[k], depth+1) + ")")
+		}
+		b.WriteByte(')')
+		return b.String()
+	case error:
+		return "err"
+	}
+	return fmt.Sprintf("(unknown %T)", v)
+}
+
+func (h *natHeap) cellsText() string {
+	var b strings.Builder
+	for k, c := range h.cells {
+		if k > 0 {
+			b.WriteByte(' ')
+		}
+		switch c := c.(type) {
+		case []any:
+			b.WriteString("(arr")
+			for _, x := range c {
+				b.WriteByte(' ')
+				b.WriteString(h.val(x, 0))
+			}
+			b.WriteByte(')')
+		case map[string]any:
+			ks := make([]string, 0, len(c))
+			for k := range c {
+				ks = append(ks, k)
+			}
+			sort.Strings(ks)
+			b.WriteString("(map")
+			for _, k := range ks {
+				b.WriteString(" (" + Hexs([]byte(k)) + " " + h.val(c[k], 0) + ")")
+			}
+			b.WriteByte(')')
+		}
+	}
+	return b.String()
+}
+
+var natKeys = []string{"a", "b", "c", "ab", ""}
+
+// genHeap builds ncell cells; a value placed in cell k only refers to cells < k.
+func genHeap(r *Rng, ncell int, kind string) *natHeap {
+	h := &natHeap{}
+	for k := 0; k < ncell; k++ {
+		wantArr := r.Chance(3, 5)
+		if kind == "objects" {
+			wantArr = r.Chance(1, 5)
+		} else if kind == "arrays" {
+			wantArr = r.Chance(9, 10)
+		}
+		if wantArr {
+			n := r.Intn(6)
+			b := make([]any, n)
+			for i := range b {
+				b[i] = h.genVal(r, k, kind)
+			}
+			h.cells = append(h.cells, b)
+		} else {
+			n := r.Intn(4)
+			m := make(map[string]any, n)
+			for i := 0; i < n; i++ {
+				m[natKeys[r.Intn(len(natKeys))]] = h.genVal(r, k, kind)
+			}
+			h.cells = append(h.cells, m)
+		}
+	}
+	return h
+}
+
+func (h *natHeap) genScalar(r *Rng) any {
+	switch r.Intn(7) {
+	case 0:
+		return nil
+	case 1:
+		return r.Chance(1, 2)
+	case 2, 3:
+		return r.Intn(7) - 2
+	default:
+		return []string{"a", "b", "ab", "", "ba"}[r.Intn(5)]
+	}
+}
+
+// genRef: a reference to one of the cells below k: a slice window of a backing array, or a map
+func (h *natHeap) genRef(r *Rng, k int, wantArr, wantObj bool) (any, bool) {
+	if k == 0 {
+		return nil, false
+	}
+	for try := 0; try < 6; try++ {
+		j := r.Intn(k)
+		switch c := h.cells[j].(type) {
+		case []any:
+			if !wantArr {
+				continue
+			}
+			if len(c) == 0 {
+				return c[0:0], true
+			}
+			off := r.Intn(len(c) + 1)
+			if r.Chance(1, 2) {
+				off = 0
+			}
+			l := r.Intn(len(c) - off + 1)
+			if r.Chance(1, 3) {
+				l = len(c) - off
+			}
+			return c[off : off+l], true
+		case map[string]any:
+			if !wantObj {
+				continue
+			}
+			return c, true
+		}
+	}
+	return nil, false
+}
+
+func (h *natHeap) genVal(r *Rng, k int, kind string) any {
+	if r.Chance(1, 2) {
+		if v, ok := h.genRef(r, k, true, true); ok {
+			return v
+		}
+	}
+	if kind == "numbers" {
+		return r.Intn(7) - 2
+	}
+	if kind == "strings" {
+		return []string{"a", "b", "ab", "", "ba"}[r.Intn(5)]
+	}
+	return h.genScalar(r)
+}
+
+func (h *natHeap) genArg(r *Rng, arr, obj, scalarChance int) any {
+	k := len(h.cells)
+	if !r.Chance(scalarChance, 100) {
+		if v, ok := h.genRef(r, k, arr > 0, obj > 0); ok {
+			return v
+		}
+	}
+	return h.genScalar(r)
+}
+
+type natCase struct {
+	name    string
+	program string
+	nargs   int
+}
+
+var natCases = []natCase{
+	{"add", `$a | add`, 1}, {"sort", `$a | sort`, 1}, {"unique", `$a | unique`, 1}, {"reverse", `$a | reverse`, 1},
+	{"flatten", `$a | flatten`, 1}, {"transpose", `$a | transpose`, 1}, {"construct", `[$a[]]`, 1},
+	{"min", `$a | min`, 1}, {"max", `$a | max`, 1},
+	{"opadd", `$a + $b`, 2}, {"opmul", `$a * $b`, 2}, {"sort_by", `$a | _sort_by($b)`, 2}, {"group_by", `$a | _group_by($b)`, 2},
+	{"unique_by", `$a | _unique_by($b)`, 2}, {"min_by", `$a | _min_by($b)`, 2}, {"max_by", `$a | _max_by($b)`, 2},
+	{"flatten", `$a | flatten($b)`, 2}, {"object", `{a: $a, b: $b}`, 2}, {"object_dup", `{a: $a, a: $b}`, 2},
+	{"slice", `$a | .[$c:$b]`, 3}, // args (a, e, s)
+	{"delpaths", `$a | delpaths($b)`, -1},
+}
+
+func runNat(c *Ctx) {
+	codes := map[string]*c56.Compiled{}
+	for _, nc := range natCases {
+		cc, err := c56.Compile(nc.program, []string{"$a", "$b", "$c"})
+		if err != nil {
+			panic(nc.program + ": " + err.Error())
+		}
+		codes[nc.program] = cc
+	}
+	for i := 0; i < c.N; i++ {
+		nc := natCases[c.Rng.Intn(len(natCases))]
+		r := c.Rng
+		kind := []string{"mixed", "mixed", "arrays", "objects", "numbers", "strings"}[r.Intn(6)]
+		if nc.name == "opmul" {
+			kind = "objects"
+		}
+		h := genHeap(r, 1+r.Intn(6), kind)
+		var args []any    // Go values passed as $a $b $c
+		var argTexts []string
+		push := func(v any) {
+			args = append(args, v)
+			argTexts = append(argTexts, h.val(v, 0))
+		}
+		switch nc.name {
+		case "slice":
+			push(h.genArg(r, 1, 1, 10))
+			bound := func() any {
+				switch r.Intn(6) {
+				case 0:
+					return nil
+				case 1:
+					return "x"
+				default:
+					return r.Intn(9) - 3
+				}
+			}
+			push(bound()) // e
+			push(bound()) // s
+		case "flatten":
+			push(h.genArg(r, 1, 1, 10))
+			if nc.nargs == 2 {
+				push(r.Intn(4) - 1)
+			}
+		case "delpaths":
+			push(h.genArg(r, 1, 1, 5))
+			np := r.Intn(4)
+			paths := make([]any, np)
+			for k := range paths {
+				var step any
+				switch r.Intn(8) {
+				case 0:
+					step = nil
+				case 1, 2, 3:
+					step = r.Intn(8) - 3
+				default:
+					step = natKeys[r.Intn(len(natKeys))]
+				}
+				paths[k] = []any{step}
+				argTexts = append(argTexts, "(p "+h.val(step, 0)+")")
+			}
+			args = append(args, paths)
+		case "opmul":
+			push(h.genArg(r, 1, 1, 0))
+			push(h.genArg(r, 1, 1, 0))
+		case "sort_by", "group_by", "unique_by", "min_by", "max_by":
+			a := h.genArg(r, 1, 0, 5)
+			push(a)
+			// a key array of the same length most of the time
+			if av, ok := a.([]any); ok && r.Chance(4, 5) {
+				var found any
+				for _, cell := range h.cells {
+					if b, ok := cell.([]any); ok && len(b) >= len(av) && r.Chance(2, 3) {
+						off := r.Intn(len(b) - len(av) + 1)
+						found = b[off : off+len(av)]
+						break
+					}
+				}
+				if found == nil {
+					found = av
+				}
+				push(found)
+			} else {
+				push(h.genArg(r, 1, 1, 10))
+			}
+		default:
+			for k := 0; k < nc.nargs; k++ {
+				push(h.genArg(r, 1, 1, 8))
+			}
+		}
+		for len(args) < 3 {
+			args = append(args, nil)
+		}
+		// slice: the program reads $c as start and $b as end, so the arguments are (a, e, s) as in funcSlice
+		pre := h.cellsText()
+		cc := codes[nc.program]
+		it := cc.Code.Run(nil, args...)
+		v, ok := it.Next()
+		res := "err"
+		if ok {
+			res = h.val(v, 0)
+		} else {
+			res = "(noresult)"
+		}
+		post := h.cellsText()
+		c.Count("native:" + nc.name)
+		if res == "err" {
+			c.Count("result:err")
+		} else {
+			c.Count("result:value")
+		}
+		c.Emit("(nat %s (heap %s) (args %s) %s (post %s))", nc.name, pre, strings.Join(argTexts, " "), res, post)
+	}
+}
